@@ -976,6 +976,21 @@ func (x *Exec) evalCall(env *Env, e *Expr) (Val, error) {
 			as = append(as, t)
 		}
 		return UF(e.Args[0].Str, SBool, as...), nil
+	case "atcallback": // atcallback(e): e over the store as it stood when the unit last called a registered module callback
+		// (the store at entry when it called none): what the notified module reads when it looks the record up
+		if err := need(1); err != nil {
+			return nil, err
+		}
+		saveCur, saveOld := env.cur, env.inOld
+		if env.st != nil && env.st.cbWorld != nil {
+			env.cur = env.st.cbWorld
+		} else {
+			env.cur = env.old
+		}
+		env.inOld = false
+		v, err := x.eval1(env, e.Args[0])
+		env.cur, env.inOld = saveCur, saveOld
+		return v, err
 	case "zero": // zero(x): zero value of x's sort
 		if err := need(1); err != nil {
 			return nil, err
